@@ -245,7 +245,7 @@ def case_ub(ctx, p):
     for mod, m in ((ctx.T, "tools"), (ctx.L, "laue")):
         U, B = mod.ub_to_u_b(M.copy())
         # forward error of a backward-stable split is ~cond*eps <= 1e-10 here
-        mon.close("workload:%s.ub_to_u_b=(Q,T)" % m, U, Q, rtol=0, atol=ATOL)
+        mon.close("workload:%s.ub_to_u_b=(Q,T)" % m, U, Q, rtol=0, atol=ATOL + 1e-12 * cond)
         mon.close("workload:%s.ub_to_u_b=(Q,T)" % m, B, T, rtol=ATOL)
         U2, B2 = mod.ub_to_u_b(gen.as_form(M, int(abs(M[0, 0]) * 1e6)))
         mon.close("workload:%s.ub_to_u_b(list)" % m, U2, U, rtol=0, atol=1e-12)
